@@ -62,7 +62,7 @@ def gen(rng, i, d16=False):
 
 
 def _gen(rng, n):
-    return {"n": n, "comp": rng.choice(["value", "value", "never"]), "ncan": rng.choice([0, 1, 1, 2]),
+    return {"n": n, "comp": rng.choice(["value", "value", "never", "exc"]), "ncan": rng.choice([0, 1, 1, 2]),
             "xcan": rng.choice([None, None, 0] + list(range(1, n))), "add": rng.random() < 0.5,
             "recancel": rng.random() < 0.3, "horizon": 500,
             "start": {nm: rng.choice([0, 0, 0, 1]) for nm in ("can1", "can2", "comp", "xcan", "add")}}
@@ -73,6 +73,9 @@ def run(ck, quick, rng, mc=True, d16=False):
         ck.mc("FutureChain", "FutureChain.mc.cfg", timeout=1500)     # re-entrant cancel from a callback of the base
         ck.mc("FutureChain", "FutureChain.mc2.cfg", timeout=1500)    # somebody cancels the middle of the chain
         ck.mc("FutureChain", "FutureChain.mc3.cfg", timeout=1500)    # three layers
+        ck.mc("FutureChain", "FutureChain.mc4.cfg", timeout=1500)    # three layers, two cancellers
+        if not quick:
+            ck.mc("FutureChain", "FutureChain.mc5.cfg", timeout=3000)    # four layers
     for cfg, n, ncan in (("FutureChain.sim.cfg", 2, 2), ("FutureChain.sim2.cfg", 2, 2), ("FutureChain.sim3.cfg", 3, 2)):
         behs = tlc.simulate_behaviours("FutureChain", cfg, 40 if quick else 400, 80, ck.seed + 11, timeout=900)
         ck.replay_behaviours(behs, converter(n, ncan), project, TRACE)
